@@ -119,6 +119,29 @@ fn lift_structure<Ctx: crate::terms::Cx>(rep: &Report, ctx: &'static str, n: usi
     small.extend(macro_fragments(tap));
     let deep: std::collections::BTreeSet<T> = small.par_iter().flat_map_iter(|f| in_contexts2::<Ctx>(f)).collect();
     all.extend(deep);
+    // thresholds of 4 and 5 children with constant children (a:l:1 is trivially true, a:l:0 never):
+    // the lift has to re-base k and n
+    {
+        let b = |t: T| Box::new(t);
+        let pk = |i: usize| T::Check(b(T::PkK(format!("K{}", i))));
+        let spk = |i: usize| T::Swap(b(pk(i)));
+        let al = |c: T| T::Alt(b(T::OrI(b(T::False), b(c))));
+        let pools: Vec<Vec<T>> = vec![
+            vec![pk(1), spk(2), spk(3), al(T::True)],
+            vec![pk(1), spk(2), al(T::True), spk(3)],
+            vec![pk(1), spk(2), spk(3), al(T::False)],
+            vec![pk(1), spk(2), al(T::True), al(T::False)],
+            vec![pk(1), al(T::True), al(T::True), spk(2)],
+            vec![pk(1), spk(2), spk(3), spk(4), al(T::True)],
+            vec![pk(1), spk(2), al(T::True), spk(3), al(T::False)],
+        ];
+        for ch in pools {
+            for k in 1..=ch.len() {
+                all.push(T::Thresh(k, ch.clone()));
+                all.push(T::AndV(b(T::Verify(b(pk(9)))), b(T::Thresh(k, ch.clone()))));
+            }
+        }
+    }
     let label = |s: &str| s.as_bytes().to_vec();
     all.par_iter()
         .fold(Census::new, |mut cen, t| {
